@@ -35,6 +35,24 @@ def _counted_check(self, *a, **kw):
 
 z3.Solver.check = _counted_check
 
+# ---- formatting of symbolic floats: empty body (log messages are not the subject of any property; CrossHair would
+# otherwise realise the float, i.e. enumerate concrete values without bound) -----------------------------------------
+import string as _string
+from crosshair.libimpl.builtinslib import SymbolicFloat as _SymbolicFloat
+
+_orig_format_field = _string.Formatter.format_field
+
+
+def _format_field(self, value, format_spec):
+    with NoTracing():
+        sym = isinstance(value, _SymbolicFloat)
+    if sym:
+        return '<float>'
+    return _orig_format_field(self, value, format_spec)
+
+
+_string.Formatter.format_field = _format_field
+
 
 def run_concrete(fn, part, rec):
     """plain CPython run of the harness on a recorded tape. Returns (verdict, tape)"""
